@@ -222,7 +222,12 @@ func (s *State) rename(sub func(*Term) *Term, drop func(*Term) bool) {
 // shiftSite ages everything created at site: generation 0 (latest) becomes 1
 // (the previous occurrence, facts kept), generation 1 becomes 2 (some older
 // occurrence: stands for many, facts and cell contents dropped).
-func (s *State) shiftSite(site string) {
+func (s *State) shiftSite(site string) { s.shiftSiteSub(site) }
+
+// shiftSiteSub is shiftSite returning the substitution that was applied (nil
+// if nothing referred to the site), so that callers can age terms they hold
+// outside the state.
+func (s *State) shiftSiteSub(site string) func(*Term) *Term {
 	isSite := func(t *Term) bool {
 		switch t.K {
 		case KEv, KEvArg, KAlloc, KMake, KSym, KRange:
@@ -274,9 +279,6 @@ func (s *State) shiftSite(site string) {
 			}
 		}
 	}
-	if !any {
-		return
-	}
 	sub := func(t *Term) *Term {
 		if isSite(t) && t.G < 2 {
 			c := *t
@@ -284,6 +286,9 @@ func (s *State) shiftSite(site string) {
 			return mk(c)
 		}
 		return nil
+	}
+	if !any {
+		return sub
 	}
 	// facts about generation >= 1 are dropped (after the shift they would
 	// describe a merged "older" occurrence)
@@ -302,6 +307,7 @@ func (s *State) shiftSite(site string) {
 		}
 	}
 	s.rename(sub, drop)
+	return sub
 }
 
 // key is the canonical string identifying the abstract state.
